@@ -81,8 +81,14 @@ class Problem:
         cons = []
         if self.A.shape[0]:
             cons.append(LinearConstraint(self.A, self.lo, self.hi))
+        # HiGHS' presolve (scipy 1.14.1) wrongly declares some small feasible MIPs infeasible (observed on a storage
+        # with holding-duration booleans): MIPs are solved without presolve, and an LP 'infeasible' is re-confirmed.
+        mip = bool(self.integrality.any())
         res = milp(c=self.c if maximize else -self.c, constraints=cons, integrality=self.integrality,
-                   bounds=Bounds(l, u), options={'presolve': True})
+                   bounds=Bounds(l, u), options={'presolve': not mip})
+        if res.status == 2 and not mip:
+            res = milp(c=self.c if maximize else -self.c, constraints=cons, integrality=self.integrality,
+                       bounds=Bounds(l, u), options={'presolve': False})
         if res.status == 0:
             return 'optimal', float(-self.c @ res.x), res.x
         if res.status == 2:
